@@ -2289,7 +2289,7 @@ class HDKey(Key):
         """
         if network is None:
             network = self.network.name
-        if index > 0x80000000:
+        if index >= 0x80000000:
             raise BKeyError("Cannot derive hardened key from public private key. Index must be less than 0x80000000")
         data = self.public_byte + index.to_bytes(4, 'big')
         key, chain = self._key_derivation(data)
